@@ -169,6 +169,13 @@ func (w *World) ruleListCount(r *Report, rule string) {
 		pos  string
 	}
 	res := map[string]*agg{}
+	type pinStat struct {
+		seen map[int]bool
+		bad  string
+	}
+	pinned := map[string]*pinStat{}          // counted term + loop -> what the complete paths say
+	semLoops := map[string]map[string]bool{} // header key -> the (term, loop) pairs its paths run
+	semPos := map[string]string{}
 	for _, p := range wi.paths {
 		// header tag, then (type,) count
 		hdr := -1
@@ -210,6 +217,83 @@ func (w *World) ruleListCount(r *Report, rule string) {
 				a.fact = fmt.Sprintf("count written = %s; element loop bound = %s", ct.Key(), bound)
 				break
 			}
+		}
+		// the same obligation read off the facts of the paths, for element loops whose
+		// bound test is not a comparison in the loop (`for item, more := next(); more;
+		// item, more = next()` with the position and the test `pos >= list.Len()` kept
+		// in a closure): on a path that completes successfully after writing k elements
+		// the tests taken pin the declared count to exactly k.  The fact is one about the
+		// loop and the term counted (a header whose count is ≥ 8 has no path short
+		// enough to complete within the unrolling cap; it runs the same loop over the
+		// same term as the header that has)
+		if hdr >= 0 && count != nil {
+			k, after, loopID := 0, false, ""
+			for i := range p.Trace {
+				e := &p.Trace[i]
+				switch {
+				case e == count:
+					after = true
+				case after && e.Kind == "value":
+					k++
+				case after && e.Kind == "loophead" && loopID == "" && e.Frame != nil && e.Frame.fn != nil:
+					loopID = fnName(e.Frame.fn) + "#" + strings.TrimPrefix(e.Extra, e.Frame.id)
+				}
+			}
+			ct := stripConv(w, count.Args[0])
+			lk := ct.Key() + " in loop " + loopID
+			key := fmt.Sprintf("(*Encoder).writeList · count after header x%02x", hdr)
+			if semLoops[key] == nil {
+				semLoops[key] = map[string]bool{}
+				semPos[key] = count.Pos
+			}
+			if loopID != "" || p.ErrNil {
+				// (a path that fails before it reaches the element loop says nothing)
+				semLoops[key][lk] = true
+			}
+			if p.ErrNil {
+				ps := pinned[lk]
+				if ps == nil {
+					ps = &pinStat{seen: map[int]bool{}}
+					pinned[lk] = ps
+				}
+				ps.seen[k] = true
+				if cs, _ := w.evalEv(ct, p.Env); cs == nil || !cs.Equal(single(int64(k))) {
+					if ps.bad == "" {
+						ps.bad = fmt.Sprintf("a successful path (return at %s) writes %d element(s) with the declared count ∈ %v", p.Pos, k, cs)
+					}
+				}
+			}
+		}
+	}
+	for key, loops := range semLoops {
+		a := res[key]
+		if a == nil {
+			a = &agg{ok: false, pos: semPos[key], fact: "no element is written after the count on any path"}
+			res[key] = a
+		}
+		if a.ok {
+			continue
+		}
+		good, why := len(loops) > 0, ""
+		var lks []string
+		for lk := range loops {
+			lks = append(lks, lk)
+		}
+		sort.Strings(lks)
+		for _, lk := range lks {
+			ps := pinned[lk]
+			switch {
+			case ps == nil || !ps.seen[0] || !ps.seen[1]:
+				good = false
+			case ps.bad != "":
+				good, why = false, ps.bad
+			}
+		}
+		if good {
+			a.ok = true
+			a.fact = fmt.Sprintf("count written = %s: on every successful path the tests taken pin it to the number of elements written", strings.Join(lks, ", "))
+		} else if why != "" {
+			a.fact += "; " + why
 		}
 	}
 	n := 0
@@ -261,6 +345,11 @@ func (w *World) ruleValuesPerIteration(r *Report, rule string) {
 			// with emit chosen before the loop) is one loop per function value it runs
 			bind := ""
 			for _, e := range p.Trace {
+				if e.Kind == "loophead" && w.literalLoopHead(e) {
+					// `for _, part := range header` over a local array of N parts is its body N
+					// times (pxlocalarray.go): what it emits belongs to the enclosing iteration
+					continue
+				}
 				if e.Kind == "loophead" {
 					if cur == e.Extra && (v > 0 || m > 0 || true) {
 						if emis[cur] == nil {
